@@ -416,7 +416,11 @@ pub fn scenario_with(seed: u64, g: u64, layout: &Layout) -> Scenario {
     let prog = proggen::gen(&mut r, &pool, &o);
     let mut labels = vec![];
     collect_labels(&prog.nodes, &mut labels);
-    let main_dir = format!("{}{}", layout.base, ["proj", "proj/src", "top dir"][r.usize(3)]);
+    // one tree in eight lives in directories whose names are not valid UTF-8 (Latin-1 bytes);
+    // undone at the end if some file would have to spell such a name
+    let raw = layout.cwd.is_none() && r.chance(1, 8);
+    let rc = |b: u8| -> String { if raw { raw_byte_char(b).to_string() } else { "a".to_string() } };
+    let main_dir = format!("{}{}", layout.base, [format!("proj{}", if raw { rc(0xE4) } else { String::new() }), format!("proj/src{}", if raw { rc(0xFC) } else { String::new() }), "top dir".to_string()][r.usize(3)]);
     let main_name = ["main.asm", "Main Prog.asm", "m"][r.usize(3)].to_string();
     // mostly a directory that is no directory of the tree; sometimes deep below the root (so
     // relative paths carry several leading ".."), sometimes the main file's own directory
@@ -427,7 +431,7 @@ pub fn scenario_with(seed: u64, g: u64, layout: &Layout) -> Scenario {
     };
     let cwd = layout.cwd.clone().unwrap_or(drawn);
     let ncaller = r.range(1, 2) as usize;
-    let caller_dirs: Vec<String> = (0..ncaller).map(|k| if k == 0 { format!("{}lib1", layout.base) } else { format!("{}lib two/inc", layout.base) }).collect();
+    let caller_dirs: Vec<String> = (0..ncaller).map(|k| if k == 0 { format!("{}lib1{}", layout.base, if raw { rc(0xE9) } else { String::new() }) } else { format!("{}lib two/inc", layout.base) }).collect();
     let max_files = [1usize, 2, 3, 4, 5, 6, 8, 8][r.usize(8)];
     let mut tg = TreeGen {
         r: &mut r,
@@ -587,7 +591,7 @@ pub fn scenario_with(seed: u64, g: u64, layout: &Layout) -> Scenario {
     }
     let cfgs = ["free", "twice", "missing", "enum", "enum", "enum", "pair", "cap", "nonutf8", "enum", "twice"];
     let config = cfgs[tg.r.usize(cfgs.len())].to_string();
-    Scenario {
+    let sc = Scenario {
         engine: "inctree".into(),
         files,
         cwd,
@@ -605,7 +609,18 @@ pub fn scenario_with(seed: u64, g: u64, layout: &Layout) -> Scenario {
         symlinks,
         intent: prog.intent,
         config,
+    };
+    // a source text cannot spell a name that is not UTF-8: such a tree gets plain names after all
+    if raw && sc.files.values().any(|t| has_raw(t)) {
+        return plain_names(&sc);
     }
+    sc
+}
+
+/// The same scenario with every raw-byte character of a name replaced by a plain letter.
+pub fn plain_names(sc: &Scenario) -> Scenario {
+    let j = serde_json::to_string(sc).expect("scenario to json");
+    serde_json::from_str(&deraw(&j)).expect("scenario from json")
 }
 
 // ---------------------------------------------------------------------------------------------
@@ -630,13 +645,13 @@ impl Disk {
     pub fn materialise(&self, sc: &Scenario) -> Result<(), String> {
         let _ = std::env::set_current_dir("/");
         let _ = std::fs::remove_dir_all(&self.root);
-        std::fs::create_dir_all(self.root.join(&sc.cwd)).map_err(|e| e.to_string())?;
+        std::fs::create_dir_all(self.root.join(pb(&sc.cwd))).map_err(|e| e.to_string())?;
         let rs = self.root_str();
         for (p, t) in &sc.files {
             if sc.missing.as_deref() == Some(p.as_str()) {
                 continue;
             }
-            let fp = self.root.join(p);
+            let fp = self.root.join(pb(p));
             if let Some(d) = fp.parent() {
                 std::fs::create_dir_all(d).map_err(|e| e.to_string())?;
             }
@@ -649,7 +664,7 @@ impl Disk {
             }
             match sc.symlinks.get(p) {
                 Some(target) => {
-                    let tp = self.root.join(target);
+                    let tp = self.root.join(pb(target));
                     if let Some(d) = tp.parent() {
                         std::fs::create_dir_all(d).map_err(|e| e.to_string())?;
                     }
@@ -663,11 +678,11 @@ impl Disk {
         for d in &sc.paths {
             if !d.contains("no such dir") {
                 let p = d.replace("$R", &rs);
-                let p = if p.starts_with('/') { PathBuf::from(p) } else { self.root.join(&sc.cwd).join(p) };
+                let p = if p.starts_with('/') { pb(&p) } else { self.root.join(pb(&sc.cwd)).join(pb(&p)) };
                 let _ = std::fs::create_dir_all(p);
             }
         }
-        std::env::set_current_dir(self.root.join(&sc.cwd)).map_err(|e| format!("chdir: {}", e))
+        std::env::set_current_dir(self.root.join(pb(&sc.cwd))).map_err(|e| format!("chdir: {}", e))
     }
 }
 
@@ -678,8 +693,8 @@ pub struct TreeRun {
 
 pub fn run_tree(disk: &Disk, sc: &Scenario, budget: u64) -> Result<TreeRun, String> {
     let rs = disk.root_str();
-    let main = PathBuf::from(sc.main.replace("$R", &rs));
-    let paths: std::collections::BTreeSet<PathBuf> = sc.paths.iter().map(|p| PathBuf::from(p.replace("$R", &rs))).collect();
+    let main = pb(&sc.main.replace("$R", &rs));
+    let paths: std::collections::BTreeSet<PathBuf> = sc.paths.iter().map(|p| pb(&p.replace("$R", &rs))).collect();
     let mut st = SimState::new(&rs);
     st.rules = rules_to_sim(&sc.rules)?;
     st.read_cap = sc.read_cap;
@@ -692,12 +707,12 @@ pub fn run_tree(disk: &Disk, sc: &Scenario, budget: u64) -> Result<TreeRun, Stri
 /// Two builds of the same arguments by one caller thread, the tree edited in between.
 pub fn run_tree_twice(disk: &Disk, sc: &Scenario) -> Result<(Outcome, TreeRun), String> {
     let rs = disk.root_str();
-    let main = PathBuf::from(sc.main.replace("$R", &rs));
-    let paths: std::collections::BTreeSet<PathBuf> = sc.paths.iter().map(|p| PathBuf::from(p.replace("$R", &rs))).collect();
+    let main = pb(&sc.main.replace("$R", &rs));
+    let paths: std::collections::BTreeSet<PathBuf> = sc.paths.iter().map(|p| pb(&p.replace("$R", &rs))).collect();
     let mut st = SimState::new(&rs);
     st.hash_seed = sc.hash_seed;
-    let writes: Vec<(PathBuf, String)> = sc.then_write.iter().map(|(k, v)| (disk.root.join(k), v.replace("$R", &rs))).collect();
-    let removes: Vec<PathBuf> = sc.then_remove.iter().map(|k| disk.root.join(k)).collect();
+    let writes: Vec<(PathBuf, String)> = sc.then_write.iter().map(|(k, v)| (disk.root.join(pb(k)), v.replace("$R", &rs))).collect();
+    let removes: Vec<PathBuf> = sc.then_remove.iter().map(|k| disk.root.join(pb(k))).collect();
     let run = run_simulated(st, move || {
         let first = std::panic::catch_unwind(std::panic::AssertUnwindSafe(|| avra_lib::builder::build_file(main.clone(), paths.clone()).map_err(|e| e.to_string())));
         crate::simlibc::bypass(|| {
@@ -893,7 +908,7 @@ pub fn judge_world(sc: &Scenario, tree: &Outcome, flat_out: &Outcome, flat: &Fla
         if let Some(pos) = fe.find(incmodel::MARKER) {
             let rest = &fe[pos + incmodel::MARKER.len()..];
             if let Some(name) = flat.unresolvable.iter().find(|n| rest.starts_with(&n.replace('"', "'"))) {
-                let shown = name.replace("$R", root);
+                let shown = lossy(&name.replace("$R", root));
                 return match tree {
                     Outcome::Err(e) if e.contains(&shown) => None,
                     // an earlier include outside every documented place may legitimately be
@@ -1197,6 +1212,7 @@ fn run_faulted(cx: &mut Ctx, sc: &Scenario, base: &Base, seed: u64, g: u64) -> u
         }
         d
     };
+    cx.stats.probe("tree_in_directories_whose_names_are_not_utf8", has_raw(&sc.main_file) || sc.paths.iter().any(|p| has_raw(p)));
     cx.stats.probe("fault_fired_on_a_file_at_depth_2_or_more", run.state.trace.iter().any(|e| e.rule >= 0 && depth_of(&e.path) >= 2));
     cx.stats.probe("build_failed_under_fault", run.outcome.fails() && !fault_free.fails());
     cx.stats.probe("build_rode_through_benign_fault", !run.outcome.fails() && !fired.is_empty());
